@@ -14,6 +14,13 @@ Check (C10_known_loopback_fallback_refuted :
     wf_iface ifc /\ ing_process ifc socks p = Ok res /\ res_reply res = Some r /\
     known_loopback_fallback ifc r /\ ~ own ifc (r_src r)).
 
+Check (C10_ndisc_reply_source_own : forall ifc socks p res r,
+  ing_process ifc socks p = Ok res -> res_reply res = Some r -> r_kind r = KNeighAdv ->
+  exists target ll,
+    p_upper p = UIcmp (INeighSol target ll 255) /\ if_medium ifc <> MIp /\
+    r_src r = V6 target /\ r_dst r = p_src p /\ ip_is_unicast (r_src r) = true /\
+    (if_any_ip ifc = true \/ own ifc (V6 target)) /\ addressed_to_us ifc p).
+
 Check (C10_egress_src_is_own_unicast_or_required_unspec : forall ifc s dst len r,
   wf_iface ifc -> udp_bound_ok ifc s ->
   ing_udp_send_packet ifc s dst len = Ok (Some r) ->
@@ -59,7 +66,7 @@ Check (C10_error_reply_within_min_mtu : forall ifc socks p res r,
 
 Check (C10_ingress_and_reply_dispatch_never_panic : forall ifc socks p,
   wf_routes ifc ->
-  exists res l, ing_process ifc socks p = Ok res /\ ing_ingress_emits ifc res = Ok l).
+  exists res l, ing_process ifc socks p = Ok res /\ ing_ingress_emits_p ifc p res = Ok l).
 
 Check (C10_examples :
   (wf_iface ex_ifc /\ wf_routes ex_ifc) /\
